@@ -1,7 +1,7 @@
 """C01 - exact algorithms emit a genuine basis of the cycle space."""
 from lib import engine
 from lib.core import tier
-from units import k04_update, k10_phase
+from units import k04_update, k10_phase, k16_mainloop
 from . import common
 
 LEVEL = "other"
@@ -12,13 +12,17 @@ EXPLANATION = (
     "sequential sites establishes orthogonality of every later witness to C_k and preserves it for earlier "
     "cycles (K4); the sparsest-support swap is a transposition inside rows k..csd-1 and preserves the main-loop "
     "invariant (K6); the shortest-odd-cycle phase of mcb_sva_signed (both branches, K10) calls the search with exactly "
-    "the hidden-edge chain suffix and endpoints its contract K9 requires.  BOUNDED stand-in (never counted as proof): the whole-function postcondition K16 - count "
+    "the hidden-edge chain suffix and endpoints its contract K9 requires.  BOUNDED by CBMC (unwinding, csd<=5, thorough 6/7): the "
+    "COMPOSED main loops of mcb_sva_signed and _mcb_sva_trees - real initialisation, swap, update, output and weight "
+    "accumulation, only the search replaced by its contract (an existing cycle that is odd w.r.t. support[k]) - emit exactly "
+    "csd cycles whose incidence with the witnesses is unit lower-triangular (<W_j,C_j>=1, <W_j,C_i>=0 for i<j), i.e. "
+    "linearly independent, and return the sum of the reported weights (K16).  BOUNDED stand-in (never counted as proof): the whole-function postcondition K16 - count "
     "m-n+c, every cycle a simple cycle of distinct edges of the caller's graph, GF(2) rank = count - enforced "
     "by executing the real g++-compiled templates on every member of a finite exact-domain set.")
 
 
 def run(rep):
-    engine.run_units(rep, k04_update.units(tier(), which=("K4", "K6")) + k10_phase.units(tier()))
+    engine.run_units(rep, k04_update.units(tier(), which=("K4", "K6")) + k10_phase.units(tier()) + k16_mainloop.units(tier()))
     common.native_filtered(
         rep, "e3_exact", common.C01_KINDS,
         functions={"mcb_sva_signed": "bounded(E3 set)", "mcb_sva_fvs_trees": "bounded(E3 set)",
